@@ -253,6 +253,7 @@ pub fn run_project(s: &Subject, a: &Arrangement) -> Result<Res, String> {
     let (files, ranges) = file_texts(s, a);
     let names: Vec<String> = (0..files.len()).map(|i| format!("/w/f{}.st", i)).collect();
     let anchor = |s: &Subject, files: &[String], ranges: &[Vec<(usize, usize, usize)>], names: &[String], d: &ironplc_dsl::diagnostic::Diagnostic| anchor_of(s, files, ranges, names, d);
+    let _w = crate::util::watch::enter(&files.join("\n(* next file *)\n"));
     let r = crate::util::catch(|| {
         let mut p = FileBackedProject::new();
         for (n, t) in names.iter().zip(files.iter()) {
@@ -353,6 +354,7 @@ fn many_files_run(n: usize, fault: Option<usize>, o: &str) -> Result<(bool, BTre
         "even-first" => (0..n).filter(|i| i % 2 == 0).chain((0..n).filter(|i| i % 2 == 1)).collect(),
         _ => (0..n).collect(),
     };
+    let _w = crate::util::watch::enter(&format!("alias chain over {} files, fault {:?}, order {}", n, fault, o));
     let r = crate::util::catch(|| {
         let mut p = FileBackedProject::new();
         for i in 0..n {
